@@ -545,7 +545,7 @@ def _sig_of(node):
 
 
 def _has_loop_terms(t):
-    return any(is_term(x) and x[0] in ("loopvar", "carried", "loopout") for x in walk(t))
+    return any(is_term(x) and x[0] in ("loopvar", "carried", "loopout") and not str(x[1]).startswith("#") for x in walk(t))
 
 
 def content(prog, t, depth=0, covered=None):
@@ -670,6 +670,18 @@ def loop_content(prog, t, depth=0, memo=None, stack=()):
         lp = prog.loops[t[1]]
         path = prog.loopvar_paths.get((t[1], t[2]), t[2])
         return ("loopvar", "#it", path, loop_content(prog, comprehend(prog, lp.iter), depth + 1, memo, stack))
+    if is_term(t) and t[0] == "call" and callee_name(t) == "functools.reduce" and len(t[2]) == 3 and not t[3] \
+            and is_term(t[2][0]) and t[2][0][0] == "fn" and len(t[2][0]) == 5:
+        # functools.reduce(f, xs, init)  ==  acc = init; for x in xs: acc = f(acc, x)
+        fn, xs, init = t[2]
+        pos = [e for e in fn[1] if e[0] in ("pos", "arg")]
+        tagname = next((x[1] for x in walk(fn[2]) if x[0] == "param" and isinstance(x[1], str) and x[1].startswith("#fn")), None)
+        if len(pos) == 2 and len(fn[1]) == 2 and fn[3] == ("tuple", ()) and not fn[4] and tagname is not None:
+            tag = f"#L{depth}"
+            m = {("param", tagname, pos[0][1]): ("carried", tag, 0), ("param", tagname, pos[1][1]): ("loopvar", tag, ())}
+            body = loop_content(prog, _subst_params(fn[2], m), depth + 1, memo, stack)
+            return ("fold", loop_content(prog, xs, depth + 1, memo, stack),
+                    ((loop_content(prog, init, depth + 1, memo, stack), body),))
     return tuple(loop_content(prog, x, depth, memo, stack) if isinstance(x, tuple) else x for x in t)
 
 
@@ -709,9 +721,37 @@ def _fold_of(prog, lid, name, depth, memo, stack):
         return tuple(sub(y) if isinstance(y, tuple) else y for y in x)
 
     parts = tuple((sub(deep(lp.init.get(d, ("undef",)))), sub(nexts[d])) for d in order)
-    r = ("fold", sub(loop_content(prog, comprehend(prog, lp.iter), depth + 1, memo, stack)), parts)
+    r = _fuse_fold(("fold", sub(loop_content(prog, comprehend(prog, lp.iter), depth + 1, memo, stack)), parts), tag)
     memo[key] = r
     return r
+
+
+def _fuse_fold(r, tag):
+    """fold over `[f(x) for x in X]`  ==  fold over X with the element computed inside the body."""
+    while True:
+        it = r[1]
+        if not (is_term(it) and it[0] == "comp" and it[1] in ("list", "gen") and len(it) == 4 and len(it[3]) == 1 and not it[3][0][2]):
+            return r
+        tg, src, _c = it[3][0]
+        if is_term(tg) and tg[0] == "bv":
+            back = {tg: ("loopvar", tag, ())}
+        elif is_term(tg) and tg[0] == "tuple" and all(is_term(b) and b[0] == "bv" for b in tg[1]):
+            back = {b: ("loopvar", tag, (i,)) for i, b in enumerate(tg[1])}
+        else:
+            return r
+        if any(x[0] == "loopvar" and x[1] == tag and x[2] != () for x in walk(r[2])):
+            return r  # the body unpacks the element: keep
+        elt = _subst_params_any(it[2], back)
+        body = _subst_params_any(r[2], {("loopvar", tag, ()): elt})
+        r = ("fold", src, body)
+
+
+def _subst_params_any(t, m):
+    if not isinstance(t, tuple):
+        return t
+    if is_term(t) and t in m:
+        return m[t]
+    return tuple(_subst_params_any(x, m) if isinstance(x, tuple) else x for x in t)
 
 
 def fuse_comps(t):
@@ -962,6 +1002,7 @@ def _lifted_equal(prog, fa, fr, ia, ir, actual_q, ref_q):
     mapping = {("param", ref_q, a): ("param", actual_q, b)
                for a, b in zip(_all_params(ir.node), _all_params(ia.node), strict=False)}
     covered = covered_functions(prog)
+    lc_memo: dict = {}
 
     def form(frame, q, is_ref):
         eff = tuple(t for _c, t, _n in frame.effects if not _is_logging(t) and not _is_append_to_local(t, frame))
@@ -971,7 +1012,7 @@ def _lifted_equal(prog, fa, fr, ia, ir, actual_q, ref_q):
         def low(x):
             x = prog.expand(x, skip=covered)
             x = beta_partial(content(prog, comprehend(prog, x), 0, covered))
-            x = renumber_bv(fuse_comps(x))
+            x = renumber_bv(fuse_comps(loop_content(prog, x, 0, lc_memo)))
             x = strip_messages(_subst_params(x, mapping) if is_ref else x)
             if is_ref:
                 x = _retarget(prog, x, ia.module)
@@ -984,6 +1025,10 @@ def _lifted_equal(prog, fa, fr, ia, ir, actual_q, ref_q):
         r, gr = form(fr, ref_q, True)
     except (AnalysisError, RecursionError):
         return False
+    import os
+
+    if os.environ.get("LCMSA_DEBUG_LIFT"):
+        print("LIFT", _has_loop_terms(a), any(x[0] == "closure" for x in walk(a)), a == r, ga == gr, first_difference(a, r, "lifted"))
     if _has_loop_terms(a) or any(x[0] == "closure" for x in walk(a)):
         return False
     return a == r and (ga == gr or guards_equivalent(list(ga), list(gr)))
